@@ -16,18 +16,18 @@ CONSTANTS MatDelay, AllowH, RequireH,   \* network configuration
           First,                        \* lowest height at which the prerequisite of a scenario can be created
           Span                          \* bounds B range over First+1 .. First+Span
 
-HeightRules == {"mat-v1", "mat-v2", "uclock-v1-sc", "uclock-v1-sf", "siglock-v1", "uclock-v2", "above-v2",
+HeightRules == {"mat-v1", "mat-v2", "uclock-v1-sc", "uclock-v1-sf", "siglock-v1", "siglock-v1-partial", "uclock-v2", "above-v2",
                 "form1-windowstart", "rev1-parent-windowstart", "rev1-new-windowstart", "prove1-windowstart",
                 "form2-proofheight", "rev2-parent-proofheight", "rev2-new-proofheight", "prove2-proofheight", "expire2-expiration",
                 "era-v1", "era-v2"}
-V1Rules == {"mat-v1", "uclock-v1-sc", "uclock-v1-sf", "siglock-v1", "form1-windowstart", "rev1-parent-windowstart",
+V1Rules == {"mat-v1", "uclock-v1-sc", "uclock-v1-sf", "siglock-v1", "siglock-v1-partial", "form1-windowstart", "rev1-parent-windowstart",
             "rev1-new-windowstart", "prove1-windowstart", "era-v1"}
 
 \* does the rule, taken alone, admit the transaction in the child block?
 RuleOK(rule, child, B) ==
   CASE rule \in {"mat-v1", "mat-v2"}            -> child >= B          \* maturity height B
     [] rule \in {"uclock-v1-sc", "uclock-v1-sf"} -> child >= B          \* unlock conditions timelock B
-    [] rule = "siglock-v1"                       -> child >= B          \* signature timelock B
+    [] rule \in {"siglock-v1", "siglock-v1-partial"} -> child >= B     \* signature timelock B (whole-transaction / explicit-field signature)
     [] rule \in {"uclock-v2", "above-v2"}        -> child - 1 >= B      \* parent height compared
     [] rule = "form1-windowstart"                -> child <= B          \* window start B must not be in the past
     [] rule = "rev1-parent-windowstart"          -> child <= B          \* not once the window has opened
